@@ -104,10 +104,10 @@ func NewCtx(prop, tier string, seed int64, shard, nshards int, race bool) *Ctx {
 
 func (c *Ctx) Thorough() bool { return c.Tier == "thorough" }
 
-func (c *Ctx) Count(name string)          { c.rep.Counters[name]++ }
-func (c *Ctx) Add(name string, n int64)   { c.rep.Counters[name] += n }
-func (c *Ctx) Eval()                      { c.rep.Evaluations++ }
-func (c *Ctx) Evals(n int64)              { c.rep.Evaluations += n }
+func (c *Ctx) Count(name string)        { c.rep.Counters[name]++ }
+func (c *Ctx) Add(name string, n int64) { c.rep.Counters[name] += n }
+func (c *Ctx) Eval()                    { c.rep.Evaluations++ }
+func (c *Ctx) Evals(n int64)            { c.rep.Evaluations += n }
 func (c *Ctx) Max(name string, v int64) {
 	if v > c.rep.Counters[name] {
 		c.rep.Counters[name] = v
@@ -220,9 +220,9 @@ type Meta struct {
 	Level       string           `json:"level"` // exploration | fault_enumeration
 	Rule        string           `json:"rule"`
 	Assumptions []string         `json:"assumptions"`
-	Anchors     []string         `json:"anchors"`      // function names that the workload must execute (reach monitor)
-	Floors      map[string]int64 `json:"floors"`       // observation counters that must reach a floor (quick tier)
-	SetFloors   map[string]int64 `json:"set_floors"`   // distinct-set sizes that must reach a floor
+	Anchors     []string         `json:"anchors"`    // function names that the workload must execute (reach monitor)
+	Floors      map[string]int64 `json:"floors"`     // observation counters that must reach a floor (quick tier)
+	SetFloors   map[string]int64 `json:"set_floors"` // distinct-set sizes that must reach a floor
 	UsesRace    bool             `json:"uses_race"`
 	Exhaustive  bool             `json:"exhaustive"`
 }
